@@ -408,32 +408,32 @@ theorem sideU (P : HsP) (u : Bool) (d : Bytes) (T : Int) (s : St Hs PeerW) (hc :
 /-- how an engine call of the blocking side ends: it never gives up during the handshake (`3 ≤ stage` at the end);
 after it, `WANT_READ` is answered only if the peer's program has ended while the side was blocked -/
 def PostU (P : HsP) (u : Bool) (dc ds : Bytes) (T : Int) (D : Nat → Bytes → Prop) (s : St Hs PeerW)
-    (res : Out (SslAns × Bytes) × St Hs PeerW) : Prop :=
+    (res : Out (SslAns × Bytes) × St Hs PeerW) (mayStarve : Prop := True) : Prop :=
   ∃ ans out s', res = (.ok (ans, out), s') ∧ CalmU T s' ∧ s'.g.pendingSend = s.g.pendingSend ∧
     SysInv P dc ds (mkSys u s'.g s'.e s'.w) ∧ ProgOk s'.w ∧ 3 ≤ s'.e.stage ∧ s'.e.client = u ∧
     work P s'.w.e ≤ work P s.w.e ∧ s.w.e.stage ≤ s'.w.e.stage ∧
     (match ans with
      | .done k => D k out
-     | .wantRead => s'.w.prog = [] ∧ s'.w.ch.inb u = 0
+     | .wantRead => mayStarve ∧ s'.w.prog = [] ∧ s'.w.ch.inb u = 0
      | _ => False)
 
 theorem PostU.chain {P : HsP} {u : Bool} {dc ds : Bytes} {T : Int} {D : Nat → Bytes → Prop} {s s1 : St Hs PeerW}
-    {res : Out (SslAns × Bytes) × St Hs PeerW} (hp : s1.g.pendingSend = s.g.pendingSend)
-    (hwk : work P s1.w.e ≤ work P s.w.e) (hst : s.w.e.stage ≤ s1.w.e.stage) (hr : PostU P u dc ds T D s1 res) :
-    PostU P u dc ds T D s res := by
+    {res : Out (SslAns × Bytes) × St Hs PeerW} {ms : Prop} (hp : s1.g.pendingSend = s.g.pendingSend)
+    (hwk : work P s1.w.e ≤ work P s.w.e) (hst : s.w.e.stage ≤ s1.w.e.stage) (hr : PostU P u dc ds T D s1 res ms) :
+    PostU P u dc ds T D s res ms := by
   obtain ⟨ans, out, s', e1, c1, p1, i1, o1, f1, cl1, w1, t1, a1⟩ := hr
   exact ⟨ans, out, s', e1, c1, p1.trans hp, i1, o1, f1, cl1, Nat.le_trans w1 hwk, Nat.le_trans hst t1, a1⟩
 
 theorem hsRunU_spec (C : Cfg) (hC : 1 < C.stepsMax) (P : HsP) (u : Bool) (dc ds : Bytes) (hdc : dc ≠ [])
-    (hds : ds ≠ []) (T : Int) (hT : T < 0) (D : Nat → Bytes → Prop) (k : Hs → EngProg Hs)
+    (hds : ds ≠ []) (T : Int) (hT : T < 0) (D : Nat → Bytes → Prop) (ms : Prop) (k : Hs → EngProg Hs)
     (hk : ∀ s1 h1, CalmU T s1 → 3 ≤ h1.stage → h1.client = u → WF P h1 →
       (s1.g.pendingSend = [] ∨ s1.g.pendingSend = ownPay u dc ds) →
       SysInv P dc ds (mkSys u s1.g h1 s1.w) → ProgOk s1.w →
-      PostU P u dc ds T D s1 (interp (blockWorld C P u dc ds) s1 (k h1))) :
+      PostU P u dc ds T D s1 (interp (blockWorld C P u dc ds) s1 (k h1)) ms) :
     ∀ (f : Nat) (h : Hs) (s : St Hs PeerW), work P h < f → WF P h → h.client = u → CalmU T s →
       (s.g.pendingSend = [] ∨ s.g.pendingSend = ownPay u dc ds) →
       SysInv P dc ds (mkSys u s.g h s.w) → ProgOk s.w → (h.stage < 3 → Enough P s.w) →
-      PostU P u dc ds T D s (interp (blockWorld C P u dc ds) s (hsRun P f h k)) := by
+      PostU P u dc ds T D s (interp (blockWorld C P u dc ds) s (hsRun P f h k)) ms := by
   intro f
   induction f with
   | zero => intro h s hf; omega
@@ -505,5 +505,296 @@ theorem hsRunU_spec (C : Cfg) (hC : 1 < C.stepsMax) (P : HsP) (u : Bool) (dc ds 
             intro _
             rw [ww1]; exact hen1
         · omega
+
+theorem sslWriteU_spec (C : Cfg) (hC : 1 < C.stepsMax) (P : HsP) (u : Bool) (dc ds : Bytes) (hdc : dc ≠ [])
+    (hds : ds ≠ []) (T : Int) (hT : T < 0) (s : St Hs PeerW) (d : Bytes) (hd : d ≠ []) (hc : CalmU T s)
+    (hw : WF P s.e) (hcl : s.e.client = u) (hpend : s.g.pendingSend = [] ∨ s.g.pendingSend = ownPay u dc ds)
+    (hinv : SysInv P dc ds (mkSys u s.g s.e s.w)) (hok : ProgOk s.w) (hen : s.e.stage < 3 → Enough P s.w) :
+    PostU P u dc ds T (fun k _ => k = d.length) s
+      (interp (blockWorld C P u dc ds) s ((engine P).sslWrite s.e d)) False := by
+  apply hsRunU_spec C hC P u dc ds hdc hds T hT _ False (appWrite d) _ (fuel P) s.e s (work_lt_fuel P s.e hw) hw hcl hc hpend
+    hinv hok hen
+  intro s1 h1 c1 hfin hcl1 hw1 hpend1 hinv1 hok1
+  obtain ⟨s2, e2, c2, _, w2, p2⟩ := bioWrite_block C P u dc ds T hT s1 c1 d
+  have hl : d.length ≠ 0 := by simpa using hd
+  simp only [appWrite, interp, e2, hl, if_false]
+  have hpend2 : s2.g.pendingSend = [] ∨ s2.g.pendingSend = ownPay u dc ds := by rw [p2]; exact hpend1
+  have t : Tr P u h1 s1.w.ch h1 (s1.w.ch.addOut u d.length) :=
+    ⟨rfl, Nat.le_refl _, Nat.le_refl _, hw1, by simp, by intro h; omega, by simp, by intro h; omega, by simp, by simp⟩
+  refine ⟨.done d.length, [], { s2 with e := h1 }, rfl, c2, p2, ?_, ?_, hfin, hcl1, ?_, ?_, rfl⟩
+  · show SysInv P dc ds (mkSys u s2.g h1 s2.w)
+    rw [w2]
+    exact sysInv_upd P u dc ds s1.g s2.g h1 h1 s1.w _ hinv1 (sideU P u _ T s2 c2 h1 hw1 hcl1 hpend2 _) t
+  · show ProgOk s2.w; rw [w2]; exact hok1
+  · show work P s2.w.e ≤ _; rw [w2]; exact Nat.le_refl _
+  · show _ ≤ s2.w.e.stage; rw [w2]; exact Nat.le_refl _
+
+theorem sslReadU_spec (C : Cfg) (hC : 1 < C.stepsMax) (P : HsP) (u : Bool) (dc ds : Bytes) (hdc : dc ≠ [])
+    (hds : ds ≠ []) (T : Int) (hT : T < 0) (s : St Hs PeerW) (n : Nat) (hn : 1 ≤ n) (hc : CalmU T s)
+    (hw : WF P s.e) (hcl : s.e.client = u) (hpend : s.g.pendingSend = [] ∨ s.g.pendingSend = ownPay u dc ds)
+    (hinv : SysInv P dc ds (mkSys u s.g s.e s.w)) (hok : ProgOk s.w) (hen : s.e.stage < 3 → Enough P s.w) :
+    PostU P u dc ds T (fun k out => 1 ≤ k ∧ out ≠ []) s
+      (interp (blockWorld C P u dc ds) s ((engine P).sslRead s.e n)) True := by
+  apply hsRunU_spec C hC P u dc ds hdc hds T hT _ True (appRead n) _ (fuel P) s.e s (work_lt_fuel P s.e hw) hw hcl hc hpend
+    hinv hok hen
+  intro s1 h1 c1 hfin hcl1 hw1 hpend1 hinv1 hok1
+  obtain ⟨w1, rel, hcase⟩ := bioRead_block C hC P u dc ds hdc hds T hT s1 h1 c1 hinv1 hok1 n hn
+  rcases hcase with ⟨k0, s2, e2, k1, k2, k3, c2, ee2, ww2, p2⟩ | ⟨hp0, hz, s2, e2, c2, ee2, ww2, p2⟩
+  · have hk00 : k0 ≠ 0 := by omega
+    simp only [appRead, interp, e2, zeros_length, hk00, if_false]
+    have hne : zeros k0 ≠ [] := by
+      intro h0; have := congrArg List.length h0; rw [zeros_length] at this; simp at this; omega
+    have hpend2 : s2.g.pendingSend = [] ∨ s2.g.pendingSend = ownPay u dc ds := by rw [p2]; exact hpend1
+    have t : Tr P u h1 w1.ch h1 (w1.ch.takeIn u k0) :=
+      ⟨rfl, Nat.le_refl _, Nat.le_refl _, hw1, by simp, by intro h; omega, by simp, by intro h; omega, by simp, by simp⟩
+    refine ⟨.done k0, zeros k0, { s2 with e := h1 }, rfl, c2, p2, ?_, ?_, hfin, hcl1, ?_, ?_, ⟨k1, hne⟩⟩
+    · show SysInv P dc ds (mkSys u s2.g h1 s2.w)
+      rw [ww2]
+      exact sysInv_upd P u dc ds s1.g s2.g h1 h1 w1 _ rel.inv (sideU P u _ T s2 c2 h1 hw1 hcl1 hpend2 _) t
+    · show ProgOk s2.w; rw [ww2]; exact rel.ok
+    · show work P s2.w.e ≤ _; rw [ww2]; exact rel.wk
+    · show _ ≤ s2.w.e.stage; rw [ww2]; exact rel.st
+  · simp only [appRead, interp, e2, List.length_nil, if_true]
+    have hpend2 : s2.g.pendingSend = [] ∨ s2.g.pendingSend = ownPay u dc ds := by rw [p2]; exact hpend1
+    refine ⟨.wantRead, [], { s2 with e := h1 }, rfl, c2, p2, ?_, ?_, hfin, hcl1, ?_, ?_, ?_⟩
+    · show SysInv P dc ds (mkSys u s2.g h1 s2.w)
+      rw [ww2]
+      exact sysInv_upd P u dc ds s1.g s2.g h1 h1 w1 w1.ch rel.inv (sideU P u _ T s2 c2 h1 hw1 hcl1 hpend2 _)
+        (Tr.refl P u h1 w1.ch hw1)
+    · show ProgOk s2.w; rw [ww2]; exact rel.ok
+    · show work P s2.w.e ≤ _; rw [ww2]; exact rel.wk
+    · show _ ≤ s2.w.e.stage; rw [ww2]; exact rel.st
+    · show True ∧ s2.w.prog = [] ∧ s2.w.ch.inb u = 0
+      rw [ww2]; exact ⟨trivial, hp0, hz⟩
+
+/-! ### one API call of the blocking side (timeout `T < 0`) -/
+
+/-- the blocking side between calls (no error cached: its calls return only with a result) -/
+def ReadyU (d : Bytes) (s : St Hs PeerW) : Prop :=
+  s.g.isReadable = false ∧ s.g.isWritable = false ∧ s.g.pendingError = none ∧ s.g.lastError = .none ∧
+  (s.g.pendingSend = [] ∨ s.g.pendingSend = d)
+
+theorem sysInv_own (P : HsP) (u : Bool) (dc ds : Bytes) (g : Glue) (h : Hs) (w : PeerW)
+    (hinv : SysInv P dc ds (mkSys u g h w)) : WF P h ∧ h.client = u := by
+  cases u with
+  | true => have := hinv.1; simp only [mkSys, if_true] at this; exact ⟨this.2.2.2.2.1, this.2.2.2.1⟩
+  | false =>
+    have := hinv.2.1; simp only [mkSys, Bool.false_eq_true, if_false] at this; exact ⟨this.2.2.2.2.1, this.2.2.2.1⟩
+
+/-- what a call of the blocking side has achieved -/
+structure DoneU (P : HsP) (u : Bool) (dc ds : Bytes) (s s' : St Hs PeerW) : Prop where
+  inv : SysInv P dc ds (mkSys u s'.g s'.e s'.w)
+  ok : ProgOk s'.w
+  fin : 3 ≤ s'.e.stage
+  wk : work P s'.w.e ≤ work P s.w.e
+  st : s.w.e.stage ≤ s'.w.e.stage
+
+theorem gateU (C : Cfg) (P : HsP) (u : Bool) (dc ds : Bytes) (T : Int) (s : St Hs PeerW)
+    (hr : ReadyU (ownPay u dc ds) s) :
+    handleLastError (blockWorld C P u dc ds) (setTimeout s T) = (.ok true, setLastError (setTimeout s T) .none) ∧
+    CalmU T (setLastError (setTimeout s T) .none) := by
+  obtain ⟨h1, h2, h3, h4, h5⟩ := hr
+  refine ⟨?_, rfl, h1, h2, h3, rfl⟩
+  simp [handleLastError, setTimeout, h4, handleError]
+
+/-- **`Send(data, T)`, `T < 0`, of the blocking side**: it returns only when the whole buffer has been taken - in
+particular only after the handshake of this side is complete -, provided the peer's program is long enough for the
+work the peer's engine has left (`Enough`; needed only while this side's handshake is unfinished). -/
+theorem sendU_spec (C : Cfg) (hC : 1 < C.stepsMax) (P : HsP) (u : Bool) (dc ds : Bytes) (hdc : dc ≠ [])
+    (hds : ds ≠ []) (T : Int) (hT : T < 0) (s : St Hs PeerW) (hr : ReadyU (ownPay u dc ds) s)
+    (hinv : SysInv P dc ds (mkSys u s.g s.e s.w)) (hok : ProgOk s.w) (hen : s.e.stage < 3 → Enough P s.w) :
+    ∃ s', sendT C (blockWorld C P u dc ds) (engine P) s (ownPay u dc ds) T = (.ok (ownPay u dc ds).length, s') ∧
+      ReadyU (ownPay u dc ds) s' ∧ DoneU P u dc ds s s' := by
+  have hd : ownPay u dc ds ≠ [] := by cases u <;> simpa [ownPay]
+  obtain ⟨hgate, c1⟩ := gateU C P u dc ds T s hr
+  obtain ⟨hwf, hcl⟩ := sysInv_own P u dc ds _ _ _ hinv
+  simp only [sendT, tlsWrite, hgate]
+  generalize hs1 : setLastError (setTimeout s T) .none = s1 at c1
+  have e1 : s1.e = s.e := by rw [← hs1]; rfl
+  have w1 : s1.w = s.w := by rw [← hs1]; rfl
+  have p1 : s1.g.pendingSend = s.g.pendingSend := by rw [← hs1]; rfl
+  have hpend1 : s1.g.pendingSend = [] ∨ s1.g.pendingSend = ownPay u dc ds := by rw [p1]; exact hr.2.2.2.2
+  have hinv1 : SysInv P dc ds (mkSys u s1.g s1.e s1.w) := by
+    rw [e1, w1]
+    have := sysInv_upd P u dc ds s.g s1.g s.e s.e s.w s.w.ch hinv (sideU P u _ T s1 c1 s.e hwf hcl hpend1 _)
+      (Tr.refl P u s.e s.w.ch hwf)
+    exact this
+  let Good : St Hs PeerW → Prop := fun s' => CalmU T s' ∧ s'.g.pendingSend = [] ∧ DoneU P u dc ds s s'
+  have hloop := writeLoop_rule C (blockWorld C P u dc ds) (engine P)
+    (fun i rest s' => (rest = ownPay u dc ds ∧ s' = s1 ∧ 1 < i) ∨ (rest = [] ∧ Good s'))
+    (fun o s' => o = .ok [] ∧ Good s')
+    (by intro i rest s' h hex
+        rcases h with ⟨h1, _, h3⟩ | ⟨h1, h2⟩
+        · rcases hex with h0 | h0
+          · omega
+          · exact absurd (h1 ▸ h0) hd
+        · exact ⟨by rw [h1], h2⟩)
+    (by intro i' rest s' o s'' h hne heq
+        exfalso
+        rcases h with ⟨h1, h2, h3⟩ | ⟨h1, _⟩
+        · subst h1; subst h2
+          unfold writeRound at heq
+          rw [if_neg (by intro h; exact h.2 (hpend1.imp id (congrArg List.length)))] at heq
+          obtain ⟨ans, out, s2, e2, c2, p2, i2, o2, f2, cl2, wk2, st2, a2⟩ :=
+            sslWriteU_spec C hC P u dc ds hdc hds T hT s' _ hd c1 (by rw [e1]; exact hwf) (by rw [e1]; exact hcl) hpend1
+              hinv1 (by rw [w1]; exact hok) (by rw [e1, w1]; exact hen)
+          rw [e2] at heq
+          cases ans with
+          | done k =>
+            simp only at a2
+            simp only at heq
+            have hdrop : (ownPay u dc ds).drop k = [] := by rw [a2]; simp
+            by_cases hb : 0 < k ∧ C.fixRoundReset = true
+            · rw [if_pos hb] at heq; simp at heq
+            · rw [if_neg hb, if_neg (by intro h; omega)] at heq; simp at heq
+          | wantRead => exact a2.1
+          | wantWrite => exact a2
+          | zeroReturn => exact a2
+          | syscallErr => exact a2
+          | sslErr => exact a2
+        · exact absurd h1 hne)
+    (by intro i' rest s' j rest' s'' h hne heq
+        rcases h with ⟨h1, h2, h3⟩ | ⟨h1, _⟩
+        · subst h1; subst h2
+          unfold writeRound at heq
+          rw [if_neg (by intro h; exact h.2 (hpend1.imp id (congrArg List.length)))] at heq
+          obtain ⟨ans, out, s2, e2, c2, p2, i2, o2, f2, cl2, wk2, st2, a2⟩ :=
+            sslWriteU_spec C hC P u dc ds hdc hds T hT s' _ hd c1 (by rw [e1]; exact hwf) (by rw [e1]; exact hcl) hpend1
+              hinv1 (by rw [w1]; exact hok) (by rw [e1, w1]; exact hen)
+          rw [e2] at heq
+          cases ans with
+          | done k =>
+            simp only at a2
+            simp only at heq
+            have hdrop : (ownPay u dc ds).drop k = [] := by rw [a2]; simp
+            have hgood : Good (setPending (noteCall (engine P) s2 false (ownPay u dc ds) (.done k)) []) :=
+              ⟨c2, rfl, ⟨sysInv_upd P u dc ds s2.g _ s2.e s2.e s2.w s2.w.ch i2
+                  (sideU P u _ T (setPending (noteCall (engine P) s2 false (ownPay u dc ds) (.done k)) []) c2 s2.e
+                    (sysInv_own P u dc ds _ _ _ i2).1 cl2 (Or.inl rfl) _)
+                  (Tr.refl P u s2.e s2.w.ch (sysInv_own P u dc ds _ _ _ i2).1),
+                o2, f2, by rw [← w1]; exact wk2, by rw [← w1]; exact st2⟩⟩
+            by_cases hb : 0 < k ∧ C.fixRoundReset = true
+            · rw [if_pos hb, hdrop] at heq
+              simp only [Prod.mk.injEq, Next.again.injEq] at heq
+              obtain ⟨⟨_, rfl⟩, rfl⟩ := heq
+              exact Or.inr ⟨rfl, hgood⟩
+            · rw [if_neg hb, if_neg (by intro h; omega), hdrop] at heq
+              simp only [Prod.mk.injEq, Next.again.injEq] at heq
+              obtain ⟨⟨_, rfl⟩, rfl⟩ := heq
+              exact Or.inr ⟨rfl, hgood⟩
+          | wantRead => exact absurd a2.1 id
+          | wantWrite => exact absurd a2 id
+          | zeroReturn => exact absurd a2 id
+          | syscallErr => exact absurd a2 id
+          | sslErr => exact absurd a2 id
+        · exact absurd h1 hne)
+    C.stepsMax (ownPay u dc ds) s1 (Or.inl ⟨rfl, rfl, hC⟩)
+  rcases hw : writeLoop C (blockWorld C P u dc ds) (engine P) C.stepsMax (ownPay u dc ds) s1 with ⟨o, s''⟩
+  rw [hw] at hloop
+  obtain ⟨ho, hc'', hp'', hdone⟩ := hloop
+  simp only at ho
+  subst ho
+  simp only [List.length_nil, Nat.sub_zero]
+  have hnw : s''.g.lastError ≠ .wantWrite := by rw [hc''.2.2.2.2]; simp
+  rw [if_neg (by intro h; exact hnw h.2.1)]
+  exact ⟨s'', rfl, ⟨hc''.2.1, hc''.2.2.1, hc''.2.2.2.1, hc''.2.2.2.2, Or.inl hp''⟩, hdone⟩
+
+/-- the peer's program has ended while the side waits for application data: the unlimited wait reports "not ready" -/
+theorem handleResult_starved (C : Cfg) (P : HsP) (u : Bool) (dc ds : Bytes) (T : Int) (hT : T < 0) (s : St Hs PeerW)
+    (hc : CalmU T s) (hp : s.w.prog = []) (hz : s.w.ch.inb u = 0) :
+    ∃ s', handleResult (blockWorld C P u dc ds) s .wantRead = (.ok false, s') ∧ s'.e = s.e ∧ s'.w = s.w ∧
+      s'.g.lastError = .wantRead ∧ s'.g.isReadable = false ∧ s'.g.isWritable = false ∧ s'.g.pendingError = none ∧
+      s'.g.pendingSend = s.g.pendingSend := by
+  obtain ⟨h1, h2, h3, h4, h5⟩ := hc
+  have hno : ¬ (0 < s.w.ch.inb u) := by omega
+  have hw : (blockWorld C P u dc ds).wait s.w .rd T = (false, s.w) := by
+    rw [bw_wait_rd, if_neg hno, if_pos hT, hp]
+    show (false, { s.w with prog := [] }) = (false, s.w)
+    rw [← hp]
+  refine ⟨{ s with g := { s.g with lastError := .wantRead, remainingTime := underDeadline T 0 0 } }, ?_, rfl, rfl, rfl,
+    h2, h3, h4, rfl⟩
+  simp only [handleResult, h4, handleLastError, SslAns.toErr, setLastError, handleError, waitUnder, h1, hw, bw_now]
+
+/-- **`Receive(n, T)`, `T < 0`, of the blocking side**: whatever happens, this side's handshake is complete when the
+call is over; the call returns at least one byte - unless the peer's program ended while the call was waiting for
+application data (`prog = []`: the observation ends with the call still blocked). -/
+theorem recvU_spec (C : Cfg) (hC : 1 < C.stepsMax) (P : HsP) (u : Bool) (dc ds : Bytes) (hdc : dc ≠ [])
+    (hds : ds ≠ []) (T : Int) (hT : T < 0) (n : Nat) (hn : 1 ≤ n) (s : St Hs PeerW)
+    (hr : ReadyU (ownPay u dc ds) s)
+    (hinv : SysInv P dc ds (mkSys u s.g s.e s.w)) (hok : ProgOk s.w) (hen : s.e.stage < 3 → Enough P s.w) :
+    DoneU P u dc ds s (receiveT C (blockWorld C P u dc ds) (engine P) s n T).2 ∧
+    ((receiveT C (blockWorld C P u dc ds) (engine P) s n T).2.w.prog = [] ∨
+     (∃ out, (receiveT C (blockWorld C P u dc ds) (engine P) s n T).1 = .ok out ∧ out ≠ [] ∧
+        ReadyU (ownPay u dc ds) (receiveT C (blockWorld C P u dc ds) (engine P) s n T).2)) := by
+  obtain ⟨i, hi1⟩ : ∃ i, C.stepsMax = i + 1 := ⟨C.stepsMax - 1, by omega⟩
+  obtain ⟨hgate, c1⟩ := gateU C P u dc ds T s hr
+  obtain ⟨hwf, hcl⟩ := sysInv_own P u dc ds _ _ _ hinv
+  simp only [receiveT, tlsRead, hgate, hi1, readLoop, readRound]
+  generalize hs1 : setLastError (setTimeout s T) .none = s1 at c1
+  have e1 : s1.e = s.e := by rw [← hs1]; rfl
+  have w1 : s1.w = s.w := by rw [← hs1]; rfl
+  have p1 : s1.g.pendingSend = s.g.pendingSend := by rw [← hs1]; rfl
+  have hpend1 : s1.g.pendingSend = [] ∨ s1.g.pendingSend = ownPay u dc ds := by rw [p1]; exact hr.2.2.2.2
+  have hinv1 : SysInv P dc ds (mkSys u s1.g s1.e s1.w) := by
+    rw [e1, w1]
+    exact sysInv_upd P u dc ds s.g s1.g s.e s.e s.w s.w.ch hinv (sideU P u _ T s1 c1 s.e hwf hcl hpend1 _)
+      (Tr.refl P u s.e s.w.ch hwf)
+  obtain ⟨ans, out, s2, e2, c2, p2, i2, o2, f2, cl2, wk2, st2, a2⟩ :=
+    sslReadU_spec C hC P u dc ds hdc hds T hT s1 n hn c1 (by rw [e1]; exact hwf) (by rw [e1]; exact hcl) hpend1
+      hinv1 (by rw [w1]; exact hok) (by rw [e1, w1]; exact hen)
+  rw [e2]
+  have hwf2 := (sysInv_own P u dc ds _ _ _ i2).1
+  have hpend2 : s2.g.pendingSend = [] ∨ s2.g.pendingSend = ownPay u dc ds := by rw [p2]; exact hpend1
+  cases ans with
+  | done k =>
+    obtain ⟨_, hne⟩ := a2
+    cases out with
+    | nil => exact absurd rfl hne
+    | cons b bs =>
+      simp only
+      refine ⟨⟨?_, o2, f2, by rw [← w1]; exact wk2, by rw [← w1]; exact st2⟩, Or.inr ⟨b :: bs, rfl, by simp, ?_⟩⟩
+      · exact sysInv_upd P u dc ds s2.g _ s2.e s2.e s2.w s2.w.ch i2
+          (sideU P u _ T (noteCall (engine P) s2 true [] (.done k)) c2 s2.e hwf2 cl2 hpend2 _)
+          (Tr.refl P u s2.e s2.w.ch hwf2)
+      · exact ⟨c2.2.1, c2.2.2.1, c2.2.2.2.1, c2.2.2.2.2, hpend2⟩
+  | wantRead =>
+    obtain ⟨_, hp0, hz⟩ := a2
+    obtain ⟨s3, e3, ee3, w3, l3, r3, wr3, pe3, p3⟩ :=
+      handleResult_starved C P u dc ds T hT (noteCall (engine P) s2 true [] .wantRead) c2 hp0 hz
+    simp only [e3]
+    have hside3 : ∀ (g : Glue), g.isReadable = false → g.isWritable = false → g.pendingError = none →
+        (g.lastError = .none ∨ g.lastError = .wantRead) → (g.pendingSend = [] ∨ g.pendingSend = ownPay u dc ds) →
+        SysInv P dc ds (mkSys u g s2.e s2.w) := by
+      intro g g1 g2 g3 g4 g5
+      exact sysInv_upd P u dc ds s2.g g s2.e s2.e s2.w s2.w.ch i2
+        ⟨g1, g2, g3, cl2, hwf2, g4, (by intro _ hlt; exact absurd (show s2.e.stage < 3 from hlt) (by omega)), g5⟩ (Tr.refl P u s2.e s2.w.ch hwf2)
+    have hee3 : s3.e = s2.e := ee3
+    have hw3 : s3.w = s2.w := w3
+    have hp3 : s3.g.pendingSend = [] ∨ s3.g.pendingSend = ownPay u dc ds := by rw [p3]; exact hpend2
+    have hfinal : ∀ (s4 : St Hs PeerW), s4.e = s3.e → s4.w = s3.w → s4.g.isReadable = false →
+        s4.g.isWritable = false → s4.g.pendingError = none → (s4.g.lastError = .none ∨ s4.g.lastError = .wantRead) →
+        (s4.g.pendingSend = [] ∨ s4.g.pendingSend = ownPay u dc ds) →
+        DoneU P u dc ds s s4 ∧ (s4.w.prog = [] ∨ ∃ out, (Out.ok ([] : Bytes)) = .ok out ∧ out ≠ [] ∧
+          ReadyU (ownPay u dc ds) s4) := by
+      intro s4 q1 q2 q3 q4 q5 q6 q7
+      refine ⟨⟨?_, ?_, ?_, ?_, ?_⟩, Or.inl (by rw [q2, hw3]; exact hp0)⟩
+      · rw [q1, q2, hee3, hw3]; exact hside3 s4.g q3 q4 q5 q6 q7
+      · rw [q2, hw3]; exact o2
+      · rw [q1, hee3]; exact f2
+      · rw [q2, hw3, ← w1]; exact wk2
+      · rw [q2, hw3, ← w1]; exact st2
+    split
+    · have := hfinal s3 rfl rfl r3 wr3 pe3 (Or.inr l3) hp3
+      refine ⟨this.1, Or.inl ?_⟩
+      rw [hw3]; exact hp0
+    · split
+      · have := hfinal (setLastError s3 .none) rfl rfl r3 wr3 pe3 (Or.inl rfl) hp3
+        exact ⟨this.1, Or.inl (by show s3.w.prog = []; rw [hw3]; exact hp0)⟩
+      · have := hfinal s3 rfl rfl r3 wr3 pe3 (Or.inr l3) hp3
+        exact ⟨this.1, Or.inl (by rw [hw3]; exact hp0)⟩
+  | wantWrite => exact absurd a2 id
+  | zeroReturn => exact absurd a2 id
+  | syscallErr => exact absurd a2 id
+  | sslErr => exact absurd a2 id
 
 end SockModel.Hs
